@@ -207,6 +207,30 @@ def m_ptr_recv(d, params):
         return False
 
 
+def _plain_vs_method(x, y):
+    """one side is the plain struct {"V":n}, the other the output of MP.MarshalJSON / TP.MarshalText for the same n"""
+    for p, q in ((x, y), (y, x)):
+        if isinstance(p, tuple) and p and p[0] == "obj" and len(p[1]) == 1 and p[1][0][0] == "V" \
+                and isinstance(p[1][0][1], tuple) and p[1][0][1][0] == "num":
+            n = p[1][0][1][1]
+            if q == ("obj", [("mp", ("num", n))]) or q == "tp" + n:
+                return True
+    return False
+
+
+def m_embedded_ptr(d, params):
+    """DESIGN 8 #14, what is left after e042f54: a pointer-receiver (Text)Marshaler field promoted through an EMBEDDED
+    POINTER of a struct that is itself not addressable (hand-built cases `marfail emb.mp*`): encoding/json calls the
+    method (the pointee is addressable), sonic compiles the field with the outer value's addressability"""
+    if d["kind"] != "tokens-differ" or d["case"][0] != "marfail" or not d["case"][2].startswith("emb.mp"):
+        return False
+    try:
+        a, b = _texts(d)
+        return _same_except(_load(a), _load(b), _plain_vs_method)
+    except Exception:
+        return False
+
+
 def m_extra_map_keys(d, params):
     """DESIGN 8 #15: sonic marshals a map whose key kind encoding/json rejects (float, bool)"""
     if d["kind"] != "errorness-differs":
@@ -289,6 +313,7 @@ def m_depth(d, params):
 
 MATCHERS = {
     "ptr_receiver_leaf_dispatch_only": m_ptr_recv,
+    "ptr_receiver_leaf_via_embedded_pointer": m_embedded_ptr,
     "non_std_map_key_kind_marshals": m_extra_map_keys,
     "string_opt_inner_literal_respelled": m_string_opt_inner,
     "omitempty_negative_zero_float": m_omitempty_negzero,
